@@ -254,12 +254,100 @@ def _run_custom(case, ctx):
     ctx.sample({"definition": text, "align": case["align"]}, "custom")
 
 
+# ---------------------------------------------------------------- members at explicit (forward) offsets, packed mode
+
+OFFSET_KINDS = ["uint8", "uint16", "uint32", "int64", "uint24", "char3", "In", "bits", "uint16x2"]
+
+
+@st.composite
+def offsets_case(draw):
+    n = draw(st.integers(2, 6))
+    plan = [[draw(st.sampled_from(OFFSET_KINDS)), draw(st.sampled_from([0, 0, 1, 2, 3, 5, 8]))] for _ in range(n)]
+    return {"offsets": True, "plan": plan, "endian": draw(st.sampled_from("<>")), "data": draw(st.binary(min_size=96, max_size=96)).hex(), "batch": draw(st.booleans())}
+
+
+def _run_offsets(case, ctx):
+    """Structures built through the public API with members at explicit forward offsets (gaps) in PACKED mode: the
+    compiled reader must seek exactly like the interpreted one; values are also computed directly from the offsets."""
+    m = import_repo()
+    from dissect.cstruct import compiler
+
+    bo = "little" if case["endian"] == "<" else "big"
+    data = bytes.fromhex(case["data"])
+    results = []
+    for compiled in (False, True):
+        cs = m.cstruct(endian=case["endian"])
+        cs.load("struct In { uint8 x; uint16 y; };", compiled=compiled)
+        T = cs._make_struct("Root", [], align=False)
+        if compiled:
+            T = compiler.compile(T)
+        end = 0
+        expect = {}
+        adds = []
+        for i, (kind, gap) in enumerate(case["plan"]):
+            off = end + gap
+            nm = f"m{i}"
+            if kind == "bits":
+                adds.append((nm + "a", cs.uint8, 3, off if gap else None))
+                adds.append((nm + "b", cs.uint8, 5, None))
+                byte = data[off]
+                lo, hi = (byte & 7, byte >> 3) if bo == "little" else (byte >> 5, byte & 31)
+                expect[nm + "a"], expect[nm + "b"] = lo, hi
+                end = off + 1
+                continue
+            t, size = {"uint8": (cs.uint8, 1), "uint16": (cs.uint16, 2), "uint32": (cs.uint32, 4), "int64": (cs.int64, 8), "uint24": (cs.uint24, 3), "char3": (cs.char[3], 3), "In": (cs.In, 3), "uint16x2": (cs.uint16[2], 4)}[kind]
+            adds.append((nm, t, None, off if gap else None))
+            raw = data[off : off + size]
+            if kind == "char3":
+                expect[nm] = raw
+            elif kind == "In":
+                expect[nm] = {"x": raw[0], "y": int.from_bytes(raw[1:3], bo)}
+            elif kind == "uint16x2":
+                expect[nm] = [int.from_bytes(raw[0:2], bo), int.from_bytes(raw[2:4], bo)]
+            else:
+                expect[nm] = int.from_bytes(raw, bo, signed=kind == "int64")
+            end = off + size
+
+        def build():
+            if case["batch"]:
+                with T.start_update():
+                    for nm_, t_, bits_, off_ in adds:
+                        T.add_field(nm_, t_, bits=bits_, offset=off_)
+            else:
+                for nm_, t_, bits_, off_ in adds:
+                    T.add_field(nm_, t_, bits=bits_, offset=off_)
+
+        r = lib(build)
+        if isinstance(r, Err):
+            raise Violation("no-fallback", f"building {case['plan']} (compiled={compiled}) raised {r}", r.where)
+        s_ = io.BytesIO(data)
+        o = lib(T, s_)
+        what = {"plan": case["plan"], "endian": case["endian"], "compiled": compiled, "batch": case["batch"]}
+        if isinstance(o, Err):
+            raise Violation("outcome-asymmetry", f"{what}: parsing raised {o}", o.where, {"who": "compiled" if compiled else "interpreted", "exc": o.type})
+        got = libside.cplain(o)
+        if got != refsem.canon(expect) or s_.tell() != end or len(T) != end:
+            raise Violation("values-differ", f"{what}: parsed {got!r} (consumed {s_.tell()}, len(T) {len(T)}), the bytes at the declared offsets give {refsem.canon(expect)!r} and the structure ends at {end}")
+        d = lib(o.dumps)
+        results.append((got, s_.tell(), dict(o._sizes), d if isinstance(d, Err) else d.hex(), bool(getattr(T, "__compiled__", False))))
+    if results[0][:4] != results[1][:4]:
+        raise Violation("values-differ", f"plan {case['plan']} endian {case['endian']}: interpreted {results[0]!r} vs compiled {results[1]!r}")
+    gaps = sum(1 for _, g in case["plan"] if g)
+    ctx.count(f"offsets:gaps:{min(gaps, 3)}")
+    ctx.count("offsets:compiled" if results[1][4] else "offsets:fell-back")
+    if gaps:
+        ctx.mark_nontrivial(case)
+        ctx.sample({"plan": case["plan"], "endian": case["endian"]}, "offsets")
+
+
 _run_generated = run_case
 
 
 def run_case(case, ctx):  # noqa: F811 - dispatch on the case kind
     if case.get("custom"):
         return _run_custom(case, ctx)
+    if case.get("offsets"):
+        return _run_offsets(case, ctx)
     return _run_generated(case, ctx)
 
 
@@ -268,10 +356,12 @@ def stages(tier):
         return [
             HypStage("diff", diff_case, examples=500, shards=10),
             HypStage("custom-types", custom_case, examples=300, shards=2),
+            HypStage("explicit-offsets", offsets_case, examples=400, shards=2),
             EnumStage("triples", triple_cases, shards=6, scope="every ordered triple of 17 field kinds (incl. enum-, char- and 24-bit-backed bit-fields) x {packed, aligned} (~9800 definitions) x full input, all cut points, one raw input"),
         ]
     return [
         HypStage("diff", diff_case, examples=2000, shards=16),
         HypStage("custom-types", custom_case, examples=2500, shards=4),
+        HypStage("explicit-offsets", offsets_case, examples=3000, shards=4),
         EnumStage("triples", triple_cases, shards=8, scope="every ordered triple of 17 field kinds (incl. enum-, char- and 24-bit-backed bit-fields) x {packed, aligned} (~9800 definitions) x full input, all cut points, one raw input"),
     ]
